@@ -199,14 +199,19 @@ Definition MK : bytes := RECODED_STR ++ helo ++ CRLF.
 (** the header as it was written when the entity is no multipart: the part in front of the recorded
     Content-Transfer-Encoding field [cenc], the lines of recodeheader() if the body is recoded, the part behind
     the field; without recoding of the body (or without such a field) the whole header is the second part *)
-Definition hdr_cont (st st' : St) (h : nat) (cenc : nat * nat) (br : bool) (t : bytes) : Prop :=
-  let cut := br && negb (Nat.eqb (snd cenc) 0) in
+Definition hdr_cont (st st' : St) (h : nat) (cenc : nat * nat) (mk cutok : bool) (t : bytes) : Prop :=
+  let cut := cutok && negb (Nat.eqb (snd cenc) 0) in
   let s := if cut then fst cenc else 0 in
   let e := if cut then fst cenc + snd cenc else 0 in
-  exists X1 X2 c, outof st' = outof st ++ X1 ++ (if br then MK else []) ++ X2 /\
+  exists X1 X2 c, outof st' = outof st ++ X1 ++ (if mk then MK else []) ++ X2 /\
     (c = [] \/ c = CRLF) /\ (c = [] <-> t = []) /\
     unfolds_to X1 (stuff (split_lines (sub m b s))) = true /\
     unfolds_to (X2 ++ c) (stuff (split_lines (sub m (b + e) (h - e)))) = true.
+
+(** a multipart container loses its Content-Transfer-Encoding field and gets no marker; another entity loses
+    the field and gets the marker iff its body is recoded *)
+Definition mk_of (mp : MpRes) (br : bool) : bool := match mp with MpNo => br | _ => false end.
+Definition cut_of (mp : MpRes) (br : bool) : bool := match mp with MpNo => br | _ => true end.
 
 (** the recorded Content-Transfer-Encoding field: inside the window, a whole field as getfieldlen() sees it
     (first line and continuation lines, ending with a line end), at the start of a line, with that name *)
@@ -229,7 +234,7 @@ Definition hdr_done (br : bool) (st : St) (r : Run (nat * MpRes)) : Prop :=
       existsb is8 (sub m b h) = false /\
       longrun 0 (skipn h w) = longrun 0 (skipn (hpos 0 w) w) /\
       exists t, good ext8 D0 st' t /\ (h < len \/ ends_eol w = true -> t = []) /\
-                (mp = MpNo -> exists cenc, cenc_ok h cenc /\ hdr_cont st st' h cenc br t)
+                (exists cenc, cenc_ok h cenc /\ hdr_cont st st' h cenc (mk_of mp br) (cut_of mp br) t)
   end.
 
 (** the part of qp_header behind is_multipart(), given how the pieces of the header window behave *)
@@ -269,7 +274,7 @@ Lemma hdr_match (C : Prop) (h : nat) (mp : MpRes) (cenc : nat * nat) (body_recod
     | Die _ st' => st' = st
     | Done (h', mp') st' => h' = h /\ mp' = mp /\ (mp = MpNo \/ exists bs bl, mp = MpYes bs bl) /\
                             exists t, good ext8 D0 st' t /\ (C -> t = []) /\
-                            (mp = MpNo -> hdr_cont st st' h cenc body_recode t)
+                            hdr_cont st st' h cenc (mk_of mp body_recode) (cut_of mp body_recode) t
     end.
 Proof.
   intros Hg PW P1 P2.
@@ -308,23 +313,25 @@ Proof.
     split; [rewrite sub_0; reflexivity|]. rewrite Nat.add_0_r, Nat.sub_0_r. exact U. }
   destruct mp as [bs bl| | |w0].
   - destruct (Nat.eqb_spec (snd cenc) 0) as [Hz|Hnz]; cbn [negb].
-    + destruct (Whole st [] Hg ltac:(now rewrite app_nil_r)) as (st1 & t & E & G & Ht & _). rewrite E.
-      eexists. split; [reflexivity|]. cbn. split; [reflexivity|]. split; [reflexivity|]. split; [right; eauto|]. exists t. split; [exact G|]. split; [exact Ht|discriminate].
-    + destruct (Split (fun s => s) [] (fun s H => H) ltac:(intros; now rewrite app_nil_r) Hnz) as (st3 & t & E & G & Ht & _). rewrite E.
-      eexists. split; [reflexivity|]. cbn. split; [reflexivity|]. split; [reflexivity|]. split; [right; eauto|]. exists t. split; [exact G|]. split; [exact Ht|discriminate].
+    + destruct (Whole st [] Hg ltac:(now rewrite app_nil_r)) as (st1 & t & E & G & Ht & (X2 & c & O & Hc & I & U1 & U2)). rewrite E.
+      eexists. split; [reflexivity|]. cbn beta iota. split; [reflexivity|]. split; [reflexivity|]. split; [right; eauto|]. exists t. split; [exact G|]. split; [exact Ht|].
+      unfold hdr_cont. cbn [mk_of cut_of]. apply Nat.eqb_eq in Hz. rewrite Hz. cbn [andb negb]. exists [], X2, c. auto.
+    + destruct (Split (fun s => s) [] (fun s H => H) ltac:(intros; now rewrite app_nil_r) Hnz) as (st3 & t & E & G & Ht & (X1 & X2 & c & O & Hc & I & U1 & U2)). rewrite E.
+      eexists. split; [reflexivity|]. cbn beta iota. split; [reflexivity|]. split; [reflexivity|]. split; [right; eauto|]. exists t. split; [exact G|]. split; [exact Ht|].
+      unfold hdr_cont. cbn [mk_of cut_of]. apply Nat.eqb_neq in Hnz. rewrite Hnz. cbn [andb negb]. exists X1, X2, c. auto.
   - destruct body_recode; cbn [negb].
     + destruct (Nat.eqb_spec (snd cenc) 0) as [Hz|Hnz]; cbn [negb].
       * destruct (Whole (recodeheader helo st) MK (Hrh st Hg) ltac:(apply outof_wr)) as (st1 & t & E & G & Ht & (X2 & c & O & Hc & I & U1 & U2)).
         rewrite E. eexists. split; [reflexivity|]. cbn beta iota. split; [reflexivity|]. split; [reflexivity|]. split; [left; reflexivity|].
-        exists t. split; [exact G|]. split; [exact Ht|]. intros _. unfold hdr_cont. apply Nat.eqb_eq in Hz. rewrite Hz. cbn [andb negb].
+        exists t. split; [exact G|]. split; [exact Ht|]. unfold hdr_cont. cbn [mk_of cut_of]. apply Nat.eqb_eq in Hz. rewrite Hz. cbn [andb negb].
         exists [], X2, c. auto.
       * destruct (Split (recodeheader helo) MK Hrh ltac:(intros; apply outof_wr) Hnz) as (st3 & t & E & G & Ht & (X1 & X2 & c & O & Hc & I & U1 & U2)).
         cbv zeta. rewrite E. eexists. split; [reflexivity|]. cbn beta iota. split; [reflexivity|]. split; [reflexivity|]. split; [left; reflexivity|].
-        exists t. split; [exact G|]. split; [exact Ht|]. intros _. unfold hdr_cont. apply Nat.eqb_neq in Hnz. rewrite Hnz. cbn [andb negb].
+        exists t. split; [exact G|]. split; [exact Ht|]. unfold hdr_cont. cbn [mk_of cut_of]. apply Nat.eqb_neq in Hnz. rewrite Hnz. cbn [andb negb].
         exists X1, X2, c. auto.
     + destruct (Whole st [] Hg ltac:(now rewrite app_nil_r)) as (st1 & t & E & G & Ht & (X2 & c & O & Hc & I & U1 & U2)). rewrite E.
       eexists. split; [reflexivity|]. cbn beta iota. split; [reflexivity|]. split; [reflexivity|]. split; [left; reflexivity|].
-      exists t. split; [exact G|]. split; [exact Ht|]. intros _. unfold hdr_cont. cbn [andb].
+      exists t. split; [exact G|]. split; [exact Ht|]. unfold hdr_cont. cbn [mk_of cut_of andb].
       exists [], X2, c. auto.
   - eexists. split; [reflexivity|reflexivity].
   - eexists. split; [reflexivity|reflexivity].
@@ -389,7 +396,7 @@ Proof.
   - intros bs bl ->. destruct (Hmp bs bl eq_refl) as (Hbl & Hbs & Hbe). split; [exact Hbl|].
     destruct Hct as [Hz|(_ & B & _)]; [rewrite Hz in Hbe; lia|lia].
   - split; [split; [exact Hpos|exact Hkind]|]. split; [exact H8|]. split; [exact Hlr|]. exists t. split; [exact Gt|]. split; [exact Ht|].
-    intros Emp'. exists cenc. split; [exact Hcok|]. apply Hcont. exact Emp'.
+    exists cenc. split; [exact Hcok|exact Hcont].
 Qed.
 
 Lemma qp_header_eq body_recode st :
